@@ -182,41 +182,50 @@ func c06Conc(n *testNode, kind string, g, cnt int, seed int64) string {
 	done := make(chan struct{})
 	// injector: incoming messages with growing times, interleaved with the originators
 	var iw sync.WaitGroup
-	iw.Add(1)
-	go func() {
-		defer iw.Done()
-		rng := rand.New(rand.NewSource(seed))
-		<-start
-		qid := uint32(5000)
-		for {
-			select {
-			case <-done:
-				return
-			default:
-			}
-			var cur uint64
-			if kind == "ue" {
-				cur, _ = strconv.ParseUint(n.S.Stats()["event_time"], 10, 64)
-			} else {
-				cur, _ = strconv.ParseUint(n.S.Stats()["query_time"], 10, 64)
-			}
-			lt := cur + uint64(rng.Intn(3))
-			if kind == "ue" {
-				del.NotifyMsg(encodeWire(msgUserEventType, &wireUserEvent{LTime: lt, Name: "in", Payload: []byte(strconv.FormatUint(lt, 10))}))
-			} else {
-				qid++
-				del.NotifyMsg(encodeWire(msgQueryType, &wireQuery{LTime: lt, ID: qid, Addr: []byte{127, 0, 0, 1}, Port: 1, SourceNode: "x",
-					Flags: 2, Timeout: time.Second, Name: "in"}))
-			}
+	var qidc atomic.Uint32
+	qidc.Store(5000)
+	for inj := 0; inj < 3; inj++ {
+		iw.Add(1)
+		go func(inj int) {
+			defer iw.Done()
+			rng := rand.New(rand.NewSource(seed + int64(inj)))
+			<-start
 			for {
-				old := floor.Load()
-				if lt <= old || floor.CompareAndSwap(old, lt) {
-					break
+				select {
+				case <-done:
+					return
+				default:
+				}
+				var cur uint64
+				if kind == "ue" {
+					cur, _ = strconv.ParseUint(n.S.Stats()["event_time"], 10, 64)
+				} else {
+					cur, _ = strconv.ParseUint(n.S.Stats()["query_time"], 10, 64)
+				}
+				// mostly level with the clock; now and then well ahead of it, so that a witness which does not take
+				// effect leaves the clock behind the processed time for many calls
+				lt := cur + uint64(rng.Intn(3))
+				if rng.Intn(4) == 0 {
+					lt = cur + uint64(rng.Intn(60))
+				}
+				if kind == "ue" {
+					del.NotifyMsg(encodeWire(msgUserEventType, &wireUserEvent{LTime: lt, Name: "in", Payload: []byte(strconv.FormatUint(lt, 10))}))
+				} else {
+					del.NotifyMsg(encodeWire(msgQueryType, &wireQuery{LTime: lt, ID: qidc.Add(1), Addr: []byte{127, 0, 0, 1}, Port: 1, SourceNode: "x",
+						Flags: 2, Timeout: time.Second, Name: "in"}))
+				}
+				for {
+					old := floor.Load()
+					if lt <= old || floor.CompareAndSwap(old, lt) {
+						break
+					}
+				}
+				if rng.Intn(3) == 0 {
+					time.Sleep(time.Duration(rng.Intn(100)) * time.Microsecond)
 				}
 			}
-			time.Sleep(time.Duration(rng.Intn(200)) * time.Microsecond)
-		}
-	}()
+		}(inj)
+	}
 	for t := 0; t < g; t++ {
 		wg.Add(1)
 		go func(t int) {
